@@ -166,6 +166,27 @@ fn main() {
         profile: profile_name(),
         wall_cap_s,
     };
+    // watchdog: resident-set and wall-clock caps inside the engine (a capped run is a machinery exit, never a verdict)
+    {
+        let rss_cap_kb: u64 = std::env::var("MC_RSS_CAP_GB").ok().and_then(|s| s.parse::<u64>().ok()).unwrap_or(28) * 1024 * 1024;
+        let hard_wall_s: f64 = std::env::var("MC_HARD_WALL_S").ok().and_then(|s| s.parse().ok()).unwrap_or(tier.pick(900.0, 7200.0));
+        let t0 = Instant::now();
+        let idc = id.clone();
+        std::thread::spawn(move || loop {
+            std::thread::sleep(std::time::Duration::from_millis(250));
+            if let Ok(st) = std::fs::read_to_string("/proc/self/statm") {
+                let pages: u64 = st.split_whitespace().nth(1).and_then(|x| x.parse().ok()).unwrap_or(0);
+                if pages * 4 > rss_cap_kb {
+                    eprintln!("mc {}: resident set above the cap ({} GiB) - stopping (machinery limit, not a verdict)", idc, rss_cap_kb >> 20);
+                    std::process::exit(7);
+                }
+            }
+            if t0.elapsed().as_secs_f64() > hard_wall_s {
+                eprintln!("mc {}: hard wall-clock cap of {} s hit - stopping (machinery limit, not a verdict)", idc, hard_wall_s);
+                std::process::exit(8);
+            }
+        });
+    }
     let rep = check(&ctx);
     let wall = ctx.elapsed();
 
